@@ -47,6 +47,7 @@ from dsim import gen
 from dsim import kernel
 
 RTOL = 1e-9
+MAX_MINIMISED_PER_RUN = 2
 PE_FAMILIES = ('dry', 'time', 'moist', 'cloud')
 INTEGRATORS = ['backward_forward_euler', 'crank_nicolson_rk2', 'crank_nicolson_rk3',
                'crank_nicolson_rk4', 'imex_rk_sil3', 'semi_implicit_leapfrog']
@@ -63,7 +64,7 @@ class Inconclusive(Exception):
 # ----------------------------------------------------------------------------
 
 def draw_job(rng: random.Random, prop: str, opts) -> dict:
-  fam_w = {'C11': ['dry', 'time', 'time', 'moist', 'cloud', 'sw', 'sw'],
+  fam_w = {'C11': ['dry', 'time', 'moist', 'moist', 'cloud', 'sw'],
            'C14': ['dry', 'time', 'time', 'moist', 'sw'],
            'C19': ['dry', 'time', 'moist', 'cloud', 'sw'],
            'C07': ['dry', 'time', 'moist']}[prop]
@@ -100,6 +101,11 @@ def draw_job(rng: random.Random, prop: str, opts) -> dict:
       'sw_dens': [float(0.9 ** (layers - 1 - i)) for i in range(layers)],
       'sw_phi': [rng.uniform(0.05, 0.15) for _ in range(layers)],
   }
+  # some runs live on a padded modal layout from the start (structural zeros in
+  # the padding are then monitored on every state of the run)
+  job['layout0'] = {}
+  if prop in ('C11', 'C07') and impl != 'real' and rng.random() < 0.4:
+    job['layout0'] = {'base': rng.choice([2, 4, 8])}
   return job
 
 
@@ -464,6 +470,8 @@ class Sut:
     self.restarted = False
     self._build()
     self.state = ref.states[0]
+    if job.get('layout0'):
+      self.state = self.relayout(self.state, job['layout0'])
 
   def _build(self):
     self.coords = build_coords(self.job, self.layout)
@@ -1282,7 +1290,8 @@ def run_one(seed, tier, opts, prop):
     seen.add(v['oracle'])
     upto = events[:v['op_index'] + 1] if v['op_index'] >= 0 else events[:1]
     case = {'job': job, 'events': upto}
-    mini, evals = minimise(case, prop, v['oracle'], run_id)
+    mini, evals = (minimise(case, prop, v['oracle'], run_id)
+                   if len(out_v) < MAX_MINIMISED_PER_RUN else (case, 0))
     mr = execute(mini['job'], mini['events'], prop, run_id + 'r')
     mv = [x for x in mr.viols if x['oracle'] == v['oracle']] or [v]
     rep = {'version': 1, 'property': prop, 'engine': 'R', 'run_seed': seed, 'x64': True,
